@@ -331,7 +331,41 @@ def native_request(cfgname, uri):
             ns.free()
     return outs[0] != outs[1], "native %s: trajectory %s when a client fetches %s between two steps (%s)" % (cfgname, 'changes' if outs[0] != outs[1] else 'is bit-identical', uri, note)
 
+def run_neutral_native(u):
+    """adaptive integrators cannot be run on symbolic data: serve-neutrality is checked on the concrete engine state (every persisted
+    location identical before and after reb_simulation_save_to_stream, ground obligations) and by the native twin"""
+    rep = Report(); cfgname = u['cfg']; label = "save_to_stream leaves the live simulation untouched (%s, concrete data) " % cfgname
+    dom = Conc(); I = new_interp(dom, P.StrictCtx()); I.concrete_env = True
+    sim = P.build_engine_state(I, P.CONFIGS[cfgname], 3)
+    tab = P.read_table(I)
+    before = {lc.label: (lc, I.mem.load(lc.ptr(I, sim), lc.ty)) for lc in P.locations(I, sim, tab, []) if lc.ptr(I, sim) is not None}
+    bufp = I.mem.alloc(8, 'bufp', 'harness', zero=True); szp = I.mem.alloc(8, 'sizep', 'harness', zero=True)
+    I.call('@reb_simulation_save_to_stream', [sim.ptr, bufp, szp])
+    rep.paths += 1; rep.add_interp(I)
+    ob = Obligations(rep, Prover(t_inproc_ms=2000, use_external=False), label)
+    def on_sat(model):
+        ok, detail = native_neutral(cfgname)
+        return ok, 'C19:serve-neutral:%s' % cfgname, detail, dict(cfg=cfgname)
+    after = {lc.label: lc for lc in P.locations(I, sim, tab, [])}
+    for lab, (lc, x) in before.items():
+        if lc.field.startswith('walltime'): continue
+        lc2 = after.get(lab); p2 = lc2.ptr(I, sim) if lc2 is not None else None
+        # arrays the integrator does not use beyond 3N may be dropped from the persisted set by the save (documented compression): only
+        # locations that exist before AND after are compared, and the element counters are among them
+        if p2 is None: continue
+        y = I.mem.load(p2, lc.ty)
+        if isinstance(x, Ptr) or isinstance(y, Ptr): continue
+        same = (x == y) or (isinstance(x, float) and isinstance(y, float) and x != x and y != y)
+        if (lc.field.endswith('N_allocated') or lc.label.startswith('count:ri_ias15')) and cfgname.startswith('ias15'):
+            # the save may shrink IAS15's allocation count to what N particles (INCLUDING variational ones) need, never below
+            same = same or (isinstance(y, int) and y >= 3 * sim.get('N'))
+        ob.prove("%s unchanged by taking a snapshot" % lab, bool(same), [], on_sat=on_sat, domain='concrete engine state')
+    ok, detail = native_neutral(cfgname); rep.replays += 1; rep.witnesses += 1
+    if ok: rep.violations.append(dict(key='C19:serve-neutral:%s' % cfgname, what=detail, replay=dict(cfg=cfgname), obligation=label))
+    return rep
+
 def worker(u):
+    if u['what'] == 'neutral_native': return run_neutral_native(u)
     return {'footprint': run_footprint, 'neutral': run_neutral, 'locks': run_locks, 'handler': run_handler}[u['what']](u)
 
 def replay(data):
@@ -346,6 +380,7 @@ def main():
     cfgs = [c for c in P.CONFIGS if not P.CONFIGS[c].get('var')]
     us = [dict(what='footprint', cfg=c) for c in cfgs]
     us += [dict(what='neutral', cfg=c) for c in ['leapfrog', 'whfast', 'whfast_unsync', 'whfast_dh_kernel', 'saba', 'sei', 'none', 'janus']]
+    us += [dict(what='neutral_native', cfg=c) for c in ('ias15', 'ias15_var', 'ias15_removed', 'bs', 'mercurius', 'trace')]
     us.append(dict(what='locks'))
     for c in (['whfast', 'whfast_unsync', 'saba', 'leapfrog'] if tier == 'quick' else ['leapfrog', 'whfast', 'whfast_unsync', 'whfast_dh_kernel', 'saba', 'sei', 'none', 'janus']):
         us.append(dict(what='handler', cfg=c, uri='/simulation'))
